@@ -128,4 +128,12 @@ example :
     (traceOf procGate.flags procMachine s0.ent 0 pre (some 20) 20).flags.map (fun f => (f.1, f.2.1)) = [(0, true), (0, false)] ∧
     Spec.judge (traceOf procGate.flags procMachine s0.ent 0 pre (some 20) 20) = none := by decide
 
+-- the same program run from `start_time = 3` (`Program.start`): the clock starts at 3, nothing else changes — all
+-- theorems about `p.initState` hold for every start clock (`init` takes it as a parameter)
+example :
+    let p := { crashWindowProg with start := 3 }
+    (p.initState true).now = 3 ∧
+    (run procMachine (some 20) 10 (p.initState true)).log.map (fun e => (e.time, e.target, e.kind))
+      = [(5, 1, 1), (6, 1, 2), (8, 1, 3), (10, 0, 8)] := by decide
+
 end HappyModel.C01
